@@ -179,8 +179,8 @@ class Shape:
         return 'Shape(script=%s tools=%s env=%s args=%s fp=%s tl=%s weak=%s)' % self.key()
 
 
-TOOLNAMES = ['ta', 'tb']
-ENVKEYS = ['KA', 'KB']
+TOOLNAMES = ['ta', 'tb', 'tc']
+ENVKEYS = ['KA', 'KB', 'KC']
 
 
 def instantiate(shape, prefix):
